@@ -1177,6 +1177,48 @@ def check_c08_order(an):
     return out, {"rounds_checked": rounds_checked, "rounds_with_drops": drop_rounds, "rounds_with_clear_points": clear_rounds}
 
 
+def check_c08_panic_overlap(an):
+    """The overlap clause in rounds that end in a panic: whatever else happens while a thread unwinds, it must not start dropping
+    values (its untimed work) while another thread still sits between its start and end timestamp. Judged directly on sequence
+    numbers: a drop event on thread X that lies inside a *completed* timed section of another thread Y."""
+    out = []
+    run, cfg = an.run, an.cfg
+    if cfg.eff_T < 2:
+        return out, {}
+    drops = []
+    values_form = cfg.entry in VALUE_ENTRIES
+    for tv in an.threads.values():
+        depth = 0
+        cur_input = None
+        excused = None
+        for ev in tv.events:
+            if ev.kind == E.CALL_BEGIN:
+                depth += 1
+                cur_input = ev.a
+            elif ev.kind == E.CALL_END:
+                depth -= 1
+            elif ev.kind == E.PANIC_INJECTED:
+                if depth > 0 and values_form:
+                    excused = cur_input    # the input the panicking call owns is dropped by that call's own unwinding
+                depth = 0                  # the call that panicked never logs its end
+            elif ev.kind == E.DROP_IN and excused is not None and ev.a == excused:
+                excused = None
+            elif ev.kind == E.DROP_OUT or (ev.kind == E.DROP_IN and depth <= 0):
+                drops.append(ev)
+    windows = [(tv.tid, w) for tv in an.threads.values() for w in tv.windows if w.e is not None and w.calls > 0]
+    judged = 0
+    for d in drops:
+        for tid, w in windows:
+            if tid == d.tid:
+                continue
+            judged += 1
+            if w.s.seq < d.seq < w.e.seq:
+                out.append(V("C08", "drop_inside_peer_timed_section",
+                             "thread %d dropped a value while thread %d was between its start and end timestamp" % (d.tid, tid), [w.s, d, w.e]))
+                return out, {"panic_round_drop_window_pairs": judged}
+    return out, {"panic_round_drop_window_pairs": judged}
+
+
 def check_c02_chain(an):
     """C02 seen from the report: the duration recorded for a sample is the distance between the start and end reading that
     enclose its calls and nothing else (a re-read end timestamp, or one taken after the drops, shows up here)."""
